@@ -46,17 +46,17 @@ class Prop:
 class C15(Prop):
     owns_determinism = True
     id = "C15"
-    scen_order = ["pairs", "triples", "reuse", "interleave"]
+    scen_order = ["pairs", "triples", "sweep", "reuse", "interleave"]
     counts = {
-        "quick": {"pairs": "all", "triples": 0, "reuse": 4000, "interleave": 10000},
-        "thorough": {"pairs": "all", "triples": "all", "reuse": 120000, "interleave": 700000},
+        "quick": {"pairs": "all", "triples": 0, "sweep": 0, "reuse": 4000, "interleave": 10000},
+        "thorough": {"pairs": "all", "triples": "all", "sweep": "all", "reuse": 120000, "interleave": 700000},
     }
 
     def count(self, scen, tier):
         from . import scen_c15
         c = self.counts[tier][scen]
         if c == "all":
-            return scen_c15.n_pairs() if scen == "pairs" else scen_c15.n_triples()
+            return scen_c15.n_pairs() if scen == "pairs" else scen_c15.n_sweep() if scen == "sweep" else scen_c15.n_triples()
         return c
 
     def spec(self, scen, index, seed):
@@ -65,6 +65,8 @@ class C15(Prop):
             return scen_c15.pair_spec(index)
         if scen == "triples":
             return scen_c15.triple_spec(index)
+        if scen == "sweep":
+            return scen_c15.sweep_spec(index)
         rng = random.Random(splitmix64(seed, "C15/" + scen, index))
         return scen_c15.gen_reuse(rng) if scen == "reuse" else scen_c15.gen_interleave(rng)
 
@@ -102,6 +104,8 @@ class C15(Prop):
             "pairs_total": scen_c15.n_pairs(), "pairs_done": runs.get("pairs", 0), "pairs_exhaustive": runs.get("pairs", 0) == scen_c15.n_pairs(),
             "triples_total": scen_c15.n_triples(), "triples_done": runs.get("triples", 0),
             "pool_documents": len(workload.pool()), "configurations": [c["name"] for c in scen_c15.CONFIGS],
+            "sweep_all_two_task_interleavings_done": runs.get("sweep", 0), "sweep_total": scen_c15.n_sweep() if runs.get("sweep") else None,
+            "sweep_documents": [d[0] for d in scen_c15.SWEEP_DOCS],
             "schedules_distinct": len(merged["schedules"]), "joint_states_distinct": len(merged["joint"]),
             "dirty_probe_hits": merged["dirty"],
         }
@@ -186,7 +190,7 @@ def new_acc():
 
 def run_one(prop, spec, schedule=None):
     hooks = prop.hooks(spec)
-    run = engine.Run(spec, schedule, spec.get("oracles"))
+    run = engine.Run(spec, schedule if schedule is not None else spec.get("explicit_schedule"), spec.get("oracles"))
     run.hooks.extend(hooks)
     out = run.execute()
     out["_records"] = [r.get("dirty", []) for r in run.states[0].records] if len(run.states) == 1 else None
@@ -240,6 +244,9 @@ def run_worker(args):
     if job == "minimise":
         from . import minimise
         return minimise.job(args)
+    if job == "once":
+        from . import minimise
+        return minimise.once_job(args)
     prop = get_prop(args["prop"])
     seed, w, n = args["seed"], args["w"], args["n"]
     acc = new_acc()
@@ -250,7 +257,7 @@ def run_worker(args):
     for scen, total in args["work"]:
         done = 0
         dg = {}
-        sampled = scen not in ("pairs", "triples", "enum")
+        sampled = scen not in ("pairs", "triples", "enum", "sweep")
         if args.get("only_det"):
             indices = range(0, min(args.get("det_sample", DET_SAMPLE), total))
         else:
@@ -272,7 +279,8 @@ def run_worker(args):
             if res["violations"]:
                 out["nviol"] += 1
                 rep = {"scenario": scen, "index": index, "spec": spec, "schedule": res["schedule"],
-                       "violations": res["violations"], "digest": res["digest"]}
+                       "violations": res["violations"], "digest": res["digest"],
+                       "origin": {"w": w, "n": n, "work": args["work"], "only_det": bool(args.get("only_det")), "det_sample": args.get("det_sample", DET_SAMPLE)}}
                 if hasattr(prop, "annotate"):
                     prop.annotate(rep)
                 kf = match_known(prop.id, rep, known)
@@ -343,7 +351,7 @@ def run_check(pid, tier, seed, nworkers):
         for w in range(nworkers):
             jobs.append(({"job": "runs", "name": "w%d" % w, "prop": pid, "tier": tier, "seed": seed, "w": w, "n": nworkers, "work": work,
                           "out": os.path.join(wd, "w%d.json" % w), "wall_s": wall}, 1 + splitmix64(seed, "whs", w) % 4000000000))
-        sampled = [(s, c) for s, c in work if s not in ("pairs", "triples", "enum")]
+        sampled = [(s, c) for s, c in work if s not in ("pairs", "triples", "enum", "sweep")]
         for sh in range(2):
             jobs.append(({"job": "runs", "name": "shadow%d" % sh, "prop": pid, "tier": tier, "seed": seed, "w": 0, "n": 1, "work": sampled, "only_det": True,
                           "out": os.path.join(wd, "shadow%d.json" % sh), "wall_s": wall}, 1 + splitmix64(seed, "shs", sh) % 4000000000))
@@ -398,14 +406,14 @@ def run_check(pid, tier, seed, nworkers):
                 known_hits[k] = known_hits.get(k, 0) + v
         os.makedirs(os.path.join(VERIF, "replays"), exist_ok=True)
         reports.sort(key=lambda r: len(json.dumps(r["spec"])))
-        minimised = minimise_reports(pid, reports[:4], wd, wall) if reports else []
+        minimised = minimise_reports(pid, reports[:4], wd, wall, seed) if reports else []
         for rep in minimised:
             path = os.path.join(VERIF, "replays", "%s-%s-%d.json" % (pid, rep["scenario"], rep["index"]))
             with open(path, "w") as f:
                 json.dump({"property": pid, "seed": seed, "scenario": rep["scenario"], "index": rep["index"], "spec": rep["spec"],
                            "schedule": rep["schedule"], "violations": rep["violations"], "digest": rep["digest"],
                            "minimised": rep.get("minimised", False), "original_size": rep.get("original_size"), "minimised_size": rep.get("minimised_size"),
-                           "minimiser_runs": rep.get("minimiser_runs")}, f, indent=1)
+                           "minimiser_runs": rep.get("minimiser_runs"), "prefix": rep.get("prefix") or [], "note": rep.get("note")}, f, indent=1)
             v0 = rep["violations"][0]
             lines.append("VIOLATION property=%s replay=%s" % (pid, path))
             lines.append("  oracle=%s task=%s op=%s at %s" % (v0["oracle"], v0["task"], v0["op"], v0["path"]))
@@ -479,12 +487,12 @@ def merge(workers):
     return m
 
 
-def minimise_reports(pid, reports, wd, wall):
+def minimise_reports(pid, reports, wd, wall, seed=0):
     jobs = []
     for i, rep in enumerate(reports):
-        jobs.append(({"job": "minimise", "name": "min%d" % i, "prop": pid, "report": rep, "out": os.path.join(wd, "min%d.json" % i),
-                      "wall_s": 600, "budget_s": 60, "budget_runs": 2000}, 0))
-    results, errors = run_workers(jobs, 700)
+        jobs.append(({"job": "minimise", "name": "min%d" % i, "prop": pid, "seed": seed, "report": rep, "out": os.path.join(wd, "min%d.json" % i),
+                      "wall_s": 1500, "budget_s": 60, "budget_runs": 2000}, 0))
+    results, errors = run_workers(jobs, 1600)
     out = []
     for rep, res in zip(reports, results):
         out.append(res["report"] if res and res.get("report") else rep)
@@ -541,6 +549,11 @@ def replay(pid, path):
         print("re-run the check with VERIF_SEED=%s to reproduce" % rep.get("seed"))
         return 1
     prop = get_prop(rep.get("property", pid))
+    for scen, index in rep.get("prefix") or []:
+        try:
+            run_one(prop, prop.spec(scen, index, rep.get("seed", 0)))
+        except Exception:  # noqa: BLE001 - the prefix only has to put the process into the recorded state
+            pass
     out = run_one(prop, rep["spec"], rep.get("schedule"))
     print("digest %s (recorded %s)%s" % (out["digest"], rep.get("digest"), "" if out["digest"] == rep.get("digest") else "  DIGEST-MISMATCH"))
     if out["violations"]:
